@@ -15,9 +15,12 @@ import (
 type stdVariant struct {
 	Name       string
 	Keep       string
-	KeepEnv    string // KEEP_NEXT_HOP_ROUTE in the environment while the service starts
-	Pool       int    // > 0: listen entry 0 gets this many UDP backends (.70+i:5080) ...
-	PoolTCP    bool   // ... plus the TCP backend .33:5080
+	KeepEnv    string   // KEEP_NEXT_HOP_ROUTE in the environment while the service starts
+	Bin        bool     // run the service as the real binary in a subprocess (bin engine)
+	BinRace    bool     // ... the -race build of it
+	BinEnv     []string // extra environment of the subprocess
+	Pool       int      // > 0: listen entry 0 gets this many UDP backends (.70+i:5080) ...
+	PoolTCP    bool     // ... plus the TCP backend .33:5080
 	Default    bool
 	MustRR     [3]string
 	NoReceived [3]string
@@ -92,7 +95,16 @@ func newStdSvc(v stdVariant) (*stdSvc, error) {
 	if v.KeepEnv != "" {
 		os.Setenv("KEEP_NEXT_HOP_ROUTE", v.KeepEnv)
 	}
-	err := in.start(cfg)
+	var err error
+	if v.Bin {
+		env := v.BinEnv
+		if v.KeepEnv != "" {
+			env = append(env, "KEEP_NEXT_HOP_ROUTE="+v.KeepEnv)
+		}
+		err = in.startBin(cfg, v.BinRace, env...)
+	} else {
+		err = in.start(cfg)
+	}
 	os.Unsetenv("KEEP_NEXT_HOP_ROUTE")
 	if err != nil {
 		return nil, err
